@@ -43,6 +43,7 @@ fn main() {
                 "C20" => rnv::c20::main(&ctx),
                 "C02" => rnv::c02::main(&ctx, rnv::logmodel::Profile::Durability),
                 "C05" => rnv::c05::main(&ctx),
+                "C04" => rnv::c04::main(&ctx),
                 "C03" => rnv::c02::main(&ctx, rnv::logmodel::Profile::Truncation),
                 _ => {
                     eprintln!("unknown property {}", id);
@@ -50,6 +51,14 @@ fn main() {
                 }
             };
             std::process::exit(code);
+        }
+        "__c04-record" => {
+            if args.len() < 4 {
+                usage();
+            }
+            let code = rnv::c04::record_main(&args[2], &args[3]);
+            // no orderly shutdown: actor threads and the runtime are simply abandoned
+            unsafe { libc::_exit(code) }
         }
         _ => usage(),
     }
